@@ -88,8 +88,54 @@ AP_KINDS = ['circular', 'obstructed', 'rectangular', 'hexagonal', 'elliptical', 
             'full', 'sparse', 'zero', 'complex']
 
 
+def _make_grid(case):
+    """The grid of a part-B case: regular (dims/delta/zero) or, for `grid` cases, separated /
+    unstructured with non-constant weights."""
+    hp = _hp()
+    g = case.get('grid')
+    if g is None:
+        return hp.CartesianGrid(hp.RegularCoords(case['delta'], case['dims'], case['zero']))
+    if g['kind'] == 'separated':
+        return hp.CartesianGrid(hp.SeparatedCoords([np.array(g['xs']), np.array(g['ys'])]))
+    return hp.CartesianGrid(hp.UnstructuredCoords([np.array(g['x']), np.array(g['y'])]), weights=np.array(g['w']))
+
+
+def gen_weighted_case(rng, directed=False):
+    """Grids whose weights are not constant (outside the property's quantifier, inside the code's
+    domain): the projector is orthogonal in the unweighted product, so `total_power` may grow."""
+    if directed:
+        # the counterexample of `perfectMat_weighted_power_counterexample`
+        grid = {'kind': 'unstructured', 'x': [0.0, 1.0], 'y': [0.0, 0.0], 'w': [1.0, 8.0]}
+        n, order, ap = 2, 2, np.ones(2)
+        fields = [np.array([1.0, 0.0]) + 0j, np.array([0.0, 1.0]) + 0j]
+    else:
+        if rng.random() < 0.6:
+            nx, ny = int(rng.integers(2, 6)), int(rng.integers(2, 6))
+            xs = np.cumsum(2.0 ** rng.integers(-2, 2, nx)) - 1.0
+            ys = np.cumsum(2.0 ** rng.integers(-2, 2, ny)) - 1.0
+            grid = {'kind': 'separated', 'xs': [float(v) for v in xs], 'ys': [float(v) for v in ys]}
+            n = nx * ny
+        else:
+            n = int(rng.integers(2, 13))
+            grid = {'kind': 'unstructured', 'x': [float(v) for v in rng.integers(-8, 9, n) / 4.0],
+                    'y': [float(v) for v in rng.integers(-8, 9, n) / 4.0], 'w': [float(v) for v in 2.0 ** rng.integers(-3, 4, n)]}
+        order = int(rng.choice([2, 4, 6]))
+        ap = [np.ones(n), rng.integers(0, 17, n) / 16.0, rng.integers(-8, 9, n) / 8.0][int(rng.integers(0, 3))]
+        fields = [rng.integers(-64, 65, n) / 16.0 + 1j * rng.integers(-64, 65, n) / 16.0 for _ in range(2)]
+    h = order // 2
+    coeffs = [[(int(rng.integers(-4, 5)) / 2.0) for j in range(i + 1)] for i in range(h)]
+    if all(c == 0 for row in coeffs for c in row):
+        coeffs[0][0] = 1.0
+    return {'part': 'B', 'shape_kind': 'weighted', 'grid': grid, 'dims': [n, 1], 'order': order, 'ap_kind': 'weighted-' + grid['kind'],
+            'ap_re': [float(v) for v in ap], 'ap_im': [0.0] * n,
+            'fields': [{'name': 'random', 're': [float(v) for v in f.real], 'im': [float(v) for v in f.imag]} for f in fields],
+            'poly': coeffs, 'polarised': False}
+
+
 def gen_perfect_case(rng, big, force=None):
     hp = _hp()
+    if force == 'weighted' or (force is None and rng.random() < 0.08):
+        return gen_weighted_case(rng)
     shape_kind = str(rng.choice(['square-even', 'square-odd', 'nonsquare', 'tiny', 'pupil-grid']))
     hi = 14 if big else 10
     if shape_kind == 'square-even':
@@ -167,7 +213,8 @@ def run_perfect_case(case):
     """Real code + the oracle. Returns (obs, bad) with obs for the correspondence."""
     hp = _hp()
     nx, ny = case['dims']
-    grid = hp.CartesianGrid(hp.RegularCoords(case['delta'], [nx, ny], case['zero']))
+    grid = _make_grid(case)
+    weighted = case.get('grid') is not None
     apc = np.array(case['ap_re']) + 1j * np.array(case['ap_im'])
     is_complex = bool(np.any(apc.imag != 0))
     ap = hp.Field(apc if is_complex else apc.real.copy(), grid)
@@ -184,6 +231,12 @@ def run_perfect_case(case):
         obs['status'] = _errkind(e)
         bad.append(('perfect %s%sraises' % (cls, small), 'PerfectCoronagraph(%dx%d %s aperture, order=%d) raised %s: %s' % (nx, ny, case['ap_kind'], order, type(e).__name__, str(e)[:80])))
         return obs, bad
+    # the matrices of the real object: the tied hypotheses of the `perfectMat_*` theorems are about them
+    obs['T'] = np.array(c.transformation)
+    obs['Tinv'] = np.array(c.transformation_inverse)
+    obs['coeffs'] = np.array(c.coeffs, dtype=float)
+    obs['weights'] = np.array(grid.weights, dtype=float) * np.ones(grid.size)
+    obs['tp'] = []
     poly = sum(case['poly'][i][j] * grid.x ** j * grid.y ** (i - j) for i in range(h) for j in range(i + 1))
     ins = [('flat', np.asarray(ap, dtype=complex)), ('poly', np.asarray(ap * poly, dtype=complex))]
     ins += [(f['name'], np.array(f['re']) + 1j * np.array(f['im'])) for f in case['fields']]
@@ -224,18 +277,117 @@ def run_perfect_case(case):
         if np.abs(o2 - o1).max() > TOL * scale:
             bad.append(('perfect %s%sidempotent' % (cls, small), 'P(P(E)) differs from P(E) by %.3g (%dx%d %s aperture, order %d)' % (np.abs(o2 - o1).max(), nx, ny, case['ap_kind'], order)))
         pin, pout = float((np.abs(E) ** 2).sum()), float((np.abs(o1) ** 2).sum())
+        # `total_power` of the real wavefronts (the weighted sum): compared with the model's powerW
+        tin = float(hp.Wavefront(hp.Field(E.copy(), grid), 1).total_power)
+        tout = float(hp.Wavefront(hp.Field(o1.copy(), grid), 1).total_power)
+        obs['tp'].append((tin, tout))
+        if weighted:
+            # non-constant weights: the unweighted projector may increase total_power (documented
+            # restriction, `perfectMat_weighted_power_counterexample`); recorded, and reported through
+            # the known-findings mechanism by part_b once an open entry exists
+            if tout > tin * (1 + 1e-9) + 1e-30:
+                obs.setdefault('weighted_growth', []).append((name, tin, tout))
+            continue
         if pout > pin * (1 + 1e-9) + 1e-30:
             bad.append(('perfect %s%spower' % (cls, small), 'power grew from %.6g to %.6g (%dx%d %s aperture, order %d)' % (pin, pout, nx, ny, case['ap_kind'], order)))
     return obs, bad
 
 
+def _realify(M):
+    """A complex r x c matrix as the real 2r x 2c matrix acting on stacked (re; im) vectors."""
+    M = np.asarray(M)
+    return np.block([[M.real, -M.imag], [M.imag, M.real]])
+
+
+def pmat_lines(case, obs):
+    """Requests that run `perfectMat` on the real object's matrices (tie of the `perfectMat_*`
+    theorems): hypotheses' defects, the modes, and every field of the case."""
+    T, Ti, w, cf = obs['T'], obs['Tinv'], obs['weights'], obs['coeffs']
+    cplx = bool(np.iscomplexobj(T) and (np.any(T.imag != 0) or np.any(np.asarray(Ti).imag != 0)))
+    x, y = np.array(obs['x']), np.array(obs['y'])
+    are, aim = np.array(case['ap_re']), np.array(case['ap_im'])
+    if cplx:
+        Tr, Tir = _realify(T), _realify(Ti)
+        cf, w = np.concatenate([cf, cf]), np.concatenate([w, w])
+        x, y = np.concatenate([x, x]), np.concatenate([y, y])
+        aps = [np.concatenate([are, aim]), np.concatenate([-aim, are])]
+    else:
+        Tr, Tir = np.asarray(T).real, np.asarray(Ti).real
+        aps = [are] if not np.any(aim != 0) else [are, aim]
+    mu = 1.0 / float(w[0]) if float(w[0]) != 0 else 1.0
+    lines = ['C09 pmat %s %s %s %s %s' % (rat_lists(Tr), rat_lists(Tir), rat_list(cf), rat_list(w), rat(mu))]
+    for a in aps:
+        lines.append('C09 pmodes %d %s %s %s' % (case['order'], rat_list(a), rat_list(x), rat_list(y)))
+    per = []
+    for name, E, o1 in obs['outs']:
+        if cplx:
+            lines.append('C09 papply %s' % rat_list(np.concatenate([E.real, E.imag])))
+            per.append(1)
+        else:
+            lines.append('C09 papply %s' % rat_list(E.real))
+            lines.append('C09 papply %s' % rat_list(E.imag))
+            per.append(2)
+    return lines, {'cplx': cplx, 'nap': len(aps), 'per': per}
+
+
+def check_pmat(ctx, case, obs, resp, meta):
+    short = {k2: case.get(k2) for k2 in ('dims', 'delta', 'zero', 'grid', 'order', 'ap_kind')}
+    weighted = case.get('grid') is not None
+    m = dict(t.split('=') for t in resp[0].split()[1:])
+    leftinv, adj = float(Fraction(m['leftinv'])), float(Fraction(m['adj']))
+    ctx.traces_validated += 1
+    hyp_ok = True
+    if not leftinv <= 1e-9:
+        hyp_ok = False
+        ctx.disagree('C09 pmat hypothesis', {'case': short, 'what': 'transformation_inverse is not a left inverse of transformation', 'defect': leftinv})
+    if not adj <= 1e-9:
+        if weighted:
+            ctx.count('B:weighted:adjoint-hypothesis-fails')
+        else:
+            ctx.disagree('C09 pmat hypothesis', {'case': short, 'what': 'transformation_inverse is not the (weighted) adjoint of transformation', 'defect': adj})
+        hyp_ok = False
+    for k in range(meta['nap']):
+        mm = dict(t.split('=') for t in resp[1 + k].split()[1:])
+        nulls, scale = float(Fraction(mm['nulls'])), float(Fraction(mm['scale']))
+        ctx.traces_validated += 1
+        if not nulls <= TOL * max(1.0, scale):
+            ctx.disagree('C09 pmat hypothesis', {'case': short, 'what': 'a mode aperture*x^j*y^k is not mapped to zero (span of the modes not inside range T)', 'residual': nulls})
+    pos = 1 + meta['nap']
+    for (name, E, o1), cnt, (tin, tout) in zip(obs['outs'], meta['per'], obs['tp']):
+        rs = resp[pos:pos + cnt]
+        pos += cnt
+        outs, pin, pout = [], Fraction(0), Fraction(0)
+        for r in rs:
+            toks = r.split()
+            outs.append(np.array([float(v) for v in parse_rat_list(toks[1])]))
+            mm = dict(t.split('=') for t in toks[2:])
+            pin += Fraction(mm['pin'])
+            pout += Fraction(mm['pout'])
+        n = len(E)
+        ref = (outs[0][:n] + 1j * outs[0][n:]) if meta['cplx'] else (outs[0] + 1j * outs[1])
+        ctx.traces_validated += 1
+        scale = max(1.0, float(np.abs(E).max()))
+        if np.abs(ref - o1).max() > TOL * scale:
+            ctx.disagree('C09 perfectMat', {'case': short, 'field': name, 'max_abs_diff': float(np.abs(ref - o1).max())})
+            return
+        # powerW of the model is total_power of the real wavefronts
+        if abs(float(pin) - tin) > TOL * max(1.0, tin) or abs(float(pout) - tout) > TOL * max(1.0, tin):
+            ctx.disagree('C09 powerW', {'case': short, 'field': name, 'model': [float(pin), float(pout)], 'impl': [tin, tout]})
+            return
+        if hyp_ok and pout > pin * (1 + Fraction(1, 10 ** 9)):
+            ctx.disagree('C09 perfectMat', {'case': short, 'field': name, 'what': 'hypotheses hold but the model power grows', 'pin': float(pin), 'pout': float(pout)})
+            return
+
+
 def part_b(ctx):
     n = ctx.scale(140, 1500)
-    cases = []
-    forced = ['circular', 'obstructed', 'rectangular', 'grey', 'sparse', 'zero', 'full', 'complex']
+    cases = [gen_weighted_case(ctx.rng, directed=True)]
+    forced = ['circular', 'obstructed', 'rectangular', 'grey', 'sparse', 'zero', 'full', 'complex', 'weighted', 'weighted']
     for k in range(n):
         cases.append(gen_perfect_case(ctx.rng, big=(ctx.tier == 'thorough' and k % 4 == 0), force=forced[k] if k < len(forced) else None))
     lines, plan = [], []
+    plines, pplan = [], []
+    worst_weighted = 1.0
     for case in cases:
         obs, bad = run_perfect_case(case)
         for key, what in bad:
@@ -250,17 +402,39 @@ def part_b(ctx):
         ctx.count('B:parity:%s%s' % ('e' if nx % 2 == 0 else 'o', 'e' if ny % 2 == 0 else 'o'))
         if case.get('polarised'):
             ctx.count('B:polarised')
+        for name, tin, tout in obs.get('weighted_growth', []):
+            ctx.count('B:weighted:total_power-increased')
+            worst_weighted = max(worst_weighted, tout / tin)
+            if ctx._known('perfect weighted-grid power') is not None:
+                ctx.violation('perfect weighted-grid power', 'total_power grew from %.6g to %.6g on a grid with non-constant weights (%s, order %d)' % (tin, tout, case['ap_kind'], case['order']), case)
         sig = (case['shape_kind'], nx, ny, case['order'], case['ap_kind'])
         ctx.case({k: case[k] for k in ('shape_kind', 'dims', 'order', 'ap_kind')}, sig if nx * ny > 1 else None)
+        if obs['status'] == 'ok' and 'T' in obs and len(obs['outs']) == len(obs['tp']):
+            if obs['T'].size * (4 if is_complex else 1) <= ctx.scale(1600, 2400):
+                pl, meta = pmat_lines(case, obs)
+                pplan.append((case, obs, len(plines), len(pl), meta))
+                plines += pl
+                ctx.count('B:pmat:' + ('complex' if meta['cplx'] else 'weighted' if case.get('grid') else 'real'))
+            else:
+                ctx.count('B:pmat:skipped-large')
         if is_complex:
-            continue        # complex modes are outside the (real) executable model: oracle only
+            continue        # complex modes are outside the Gram-Schmidt model: oracle + perfectMat only
         base = len(lines)
         lines.append('C09 setup %d %s %s %s' % (case['order'], rat_list(case['ap_re']), rat_list(obs['x']), rat_list(obs['y'])))
         for name, E, o1 in obs['outs']:
             lines.append('C09 apply %s %s' % (rat_list(E.real), rat_list(E.imag)))
         plan.append((case, obs, base))
+    ctx.extra['weighted_grid_worst_total_power_ratio'] = worst_weighted
+    pout = ctx.model(plines)
+    for case, obs, base, cnt, meta in pplan:
+        resp = pout[base:base + cnt]
+        if any(not r.startswith('ok') for r in resp):
+            raise MachineryError('model refused a pmat request: %r' % [r for r in resp if not r.startswith('ok')][:1])
+        check_pmat(ctx, case, obs, resp, meta)
     out = ctx.model(lines)
     for case, obs, base in plan:
+        if obs['status'] != 'ok':
+            continue
         m = dict(t.split('=') for t in out[base].split()[1:])
         nmodes, rank, slack = int(m['modes']), int(m['rank']), float(Fraction(m['slack']))
         h = case['order'] // 2
@@ -268,7 +442,7 @@ def part_b(ctx):
             raise MachineryError('model mode count')
         if rank < nmodes:
             # modes linearly dependent on this sampled aperture (decided exactly): QR completes the
-            # basis with arbitrary directions, so only the property clauses are compared
+            # basis with arbitrary directions, so the Gram-Schmidt model is not compared (perfectMat is)
             ctx.count('B:dependent-modes')
             continue
         if slack < 1e-10:
@@ -280,7 +454,7 @@ def part_b(ctx):
             ctx.traces_validated += 1
             scale = max(1.0, float(np.abs(E).max()))
             if np.abs(ref - o1).max() > TOL * scale:
-                ctx.disagree('C09 perfect', {'case': {k2: case[k2] for k2 in ('dims', 'delta', 'zero', 'order', 'ap_kind')}, 'field': name,
+                ctx.disagree('C09 perfect', {'case': {k2: case.get(k2) for k2 in ('dims', 'delta', 'zero', 'grid', 'order', 'ap_kind')}, 'field': name,
                                              'max_abs_diff': float(np.abs(ref - o1).max())})
                 break
 
